@@ -55,13 +55,13 @@ def monitor(ck, tier, seed, replay=None):
             progs = [{'sources': rp['input']['sources'], 'entry': rp['input'].get('entry', 'Main'), 'features': ['replay']}]
     else:
         rng = Rng(seed ^ 0x7A55)
-        n = 150 if tier == 'quick' else 1500
+        n = 200 if tier == 'quick' else 2000
         for i in range(n):
             r = rng.fork()
             loopy = i % 2 == 0
             progs.append(gen_program(r, {'big': i % 5 == 0, 'nfun': 5, 'depth': 2 + i % 2, 'loops': True,
                                          'closures': not loopy, 'vec': not loopy, 'interfaces': not loopy,
-                                         'avoid_known_iv': i % 4 != 1}))
+                                         'avoid_known_iv': i % 4 != 1, 'loop_focus': loopy}))
     configs = (ALL if tier == 'thorough' else QUICK) + PASSES
     jobs = [{'id': i, 'sources': p['sources'], 'entry': p['entry'], 'fuel': 3000000, 'configs': configs} for i, p in enumerate(progs)]
     chunks = [jobs[i::16] for i in range(16)]
